@@ -137,6 +137,10 @@ func lifeProp(c LifeCase) error {
 	// known defect makes block: Suspend on a running screen and Resume on a
 	// running screen return with the mutex held.  Calls that are not predicted to
 	// block always get the full 2 s.
+	// modes the application enabled before the lifecycle calls: they must be
+	// in force again on a live screen afterwards (Resume re-applies them)
+	s.EnableMouse(tcell.MouseButtonEvents)
+	s.EnablePaste()
 	running, fini := true, false
 	leakedBy := ""
 	knownGuard := time.Duration(pbt.Pick(60, 2000)) * time.Millisecond
@@ -220,6 +224,25 @@ func lifeProp(c LifeCase) error {
 		if ek, ok := ev.(*tcell.EventKey); ok {
 			if ek.Key() != tcell.KeyRune || ek.Rune() != 'x' {
 				return &lifeErr{msg: fmt.Sprintf("%v: injected key 'x' arrived as %s", c.Seq, describeEvent(ev))}
+			}
+			// the mouse and paste modes enabled before the sequence still work
+			if !callback("onMouseClick", 3, 2, 1, false, false, false) {
+				return &lifeErr{msg: fmt.Sprintf("%v: onMouseClick is not installed on the live screen although mouse events were enabled", c.Seq)}
+			}
+			mev := nextEvent(s, positiveWait)
+			em, isMouse := mev.(*tcell.EventMouse)
+			if !isMouse {
+				return &lifeErr{msg: fmt.Sprintf("%v: mouse events were enabled before the lifecycle calls, but a click on the live screen afterwards delivered %s", c.Seq, describeEvent(mev))}
+			}
+			if x, y := em.Position(); x != 3 || y != 2 || em.Buttons() != tcell.Button1 {
+				return &lifeErr{msg: fmt.Sprintf("%v: click at (3,2) arrived as %s", c.Seq, describeEvent(mev))}
+			}
+			if !callback("onPaste", true) {
+				return &lifeErr{msg: fmt.Sprintf("%v: onPaste is not installed on the live screen although paste was enabled", c.Seq)}
+			}
+			pev := nextEvent(s, positiveWait)
+			if ep, isPaste := pev.(*tcell.EventPaste); !isPaste || !ep.Start() {
+				return &lifeErr{msg: fmt.Sprintf("%v: paste was enabled before the lifecycle calls, but a paste-start callback afterwards delivered %s", c.Seq, describeEvent(pev))}
 			}
 			closeScreen(s)
 			return nil
